@@ -225,6 +225,9 @@ func (ts *Terms) compute(v ssa.Value, fr *Frame, depth int) *Term {
 				if t := ts.loadAlloc(x, nil, fr, depth+1); t.Op == "struct" {
 					return t
 				}
+			} else {
+				// &v of a variable holding a value: render the value
+				return ts.loadAlloc(x, nil, fr, depth+1)
 			}
 		}
 		return &Term{Op: "alloc", Name: x.Comment, Site: x.Pos()}
